@@ -70,10 +70,17 @@ def is_fractional(case: dict) -> bool:
 
 
 def run_loader(case: dict, d: str, do_parse: bool = True, do_load: bool = True, mp_flag: bool = False) -> Dict[str, Any]:
-    """Runs parse-only and full load; returns decoded frames per rank."""
+    with fw.resolution(case):
+        return _run_loader(case, d, do_parse, do_load, mp_flag)
+
+
+def _run_loader(case: dict, d: str, do_parse: bool = True, do_load: bool = True, mp_flag: bool = False) -> Dict[str, Any]:
+    """Runs parse-only and full load; returns decoded frames per rank (a quarter-microsecond case, framework.resolution, is written
+    with its times divided by 4, loaded with ns rounding disabled and reported scaled by 4 again)."""
     import tracegen
     from hta.common.trace import Trace
-    paths = tracegen.write_case(case, d)
+    ksc = fw.time_scale(case)
+    paths = tracegen.write_case(fw.quartered(case) if ksc != 1 else case, d)
     # rank -> file dictionaries are handed over in a case-determined shuffled key order, and a third of the
     # multi-rank cases go through the process pool (the public default)
     import random as _r
@@ -90,8 +97,8 @@ def run_loader(case: dict, d: str, do_parse: bool = True, do_load: bool = True, 
             t = Trace(trace_files=dict(paths), trace_dir=d)
             t.parse_traces(use_multiprocessing=mp_flag)
             sym = t.symbol_table.get_sym_table()
-            out["parse"] = {r: fw.dump_frame(t.traces[r], sym) for r in sorted(t.traces)}
-            out["parse_min_ts"] = int(t.min_ts)
+            out["parse"] = {r: fw.dump_frame_res(case, t.traces[r], sym) for r in sorted(t.traces)}
+            out["parse_min_ts"] = fw.as_int(t.min_ts * ksc)
         except Exception as e:
             out["parse_error"] = type(e).__name__ + ": " + str(e)[:300]
     if do_load:
@@ -106,9 +113,9 @@ def run_loader(case: dict, d: str, do_parse: bool = True, do_load: bool = True, 
                 t = TraceAnalysis(trace_files=dict(paths), trace_dir=d, include_last_profiler_step=incl).t
                 out["route"] = "TraceAnalysis(...)"
             sym = t.symbol_table.get_sym_table()
-            out["load"] = {r: fw.dump_frame(t.get_trace(r), sym) for r in sorted(t.traces)}
+            out["load"] = {r: fw.dump_frame_res(case, t.get_trace(r), sym) for r in sorted(t.traces)}
             out["load_index_ok"] = all(list(t.get_trace(r).index) == list(t.get_trace(r)["index"]) for r in t.traces)
-            out["min_ts"] = int(t.min_ts)
+            out["min_ts"] = fw.as_int(t.min_ts * ksc)
             out["iterations"] = {r: [int(x) for x in t.get_iterations(r)] for r in sorted(t.traces)}
         except Exception as e:
             import traceback
